@@ -168,7 +168,8 @@ FieldPlans(F, raw, small) ==
        [] OTHER -> \* obj
             LET S == MsgPlans(SubOf(F), raw /\ ~small, small)
             IN S \cup {[Pick(S) EXCEPT !.null = TRUE, !.unk = FALSE, !.attrs = EmptyFn, !.attrsnil = TRUE]}
-                 \cup (IF small THEN {} ELSE {[Pick(S) EXCEPT !.null = FALSE, !.unk = TRUE, !.attrs = EmptyFn, !.attrsnil = TRUE]})
+                 \* (an unknown message is not a null one: kept in the small pool as well)
+                 \cup {[Pick(S) EXCEPT !.null = FALSE, !.unk = TRUE, !.attrs = EmptyFn, !.attrsnil = TRUE]}
                  \cup (IF raw /\ ~small THEN {[x EXCEPT !.null = TRUE] : x \in S} ELSE {})
 
 PlanProduct(M, i, acc, raw, small) ==
@@ -205,7 +206,18 @@ LongLists(M) ==
   LET rich == RichOf(M, UnitsOf(M), M.zero)
   IN UNION {{SetPath(g, M.fields[i].gopath, SeqV(<<TwoOf(M.fields[i], FALSE, TRUE)[1], TwoOf(M.fields[i], FALSE, TRUE)[1], TwoOf(M.fields[i], FALSE, TRUE)[1]>>)) : g \in {M.zero, rich}}
             : i \in {j \in PlainIdx(M) : M.fields[j].kind \in {"primlist", "objlist"}}}
-PriorVals(M, deep) == {M.zero} \cup MsgVals(M, FALSE, ~deep) \cup LongLists(M)
+\* ... and, where the struct has Go fields that the schema does not describe (excluded fields, at the top level or inside
+\* a message embedded by value), the zero and the rich value with every such scalar field set: "left untouched" must
+\* be seen to hold for content that a wholesale reset of the struct (or of the embedded holder) would wipe
+RECURSIVE FillUnmapped(_, _, _)
+FillUnmapped(M, st, prefix) ==
+  St([n \in DOMAIN st.f |-> LET p == prefix \o <<n>>
+                                v == st.f[n]
+                            IN IF ~CoveredPath(M, p)
+                               THEN (CASE v = Sc("") -> Sc("6b657074") [] v = Sc("0") -> Sc("7") [] v = Sc("false") -> Sc("true") [] OTHER -> v)
+                               ELSE IF EmbedHolderPath(M, p) /\ v.t = "st" THEN FillUnmapped(M, v, p) ELSE v])
+WithUnmapped(M) == {FillUnmapped(M, g, <<>>) : g \in {M.zero, RichOf(M, UnitsOf(M), M.zero)}} \ {M.zero, RichOf(M, UnitsOf(M), M.zero)}
+PriorVals(M, deep) == {M.zero} \cup MsgVals(M, FALSE, ~deep) \cup LongLists(M) \cup WithUnmapped(M)
 
 \* ------------------------------------------------------------------------
 \* malformed inputs (C06): every single corruption of a conforming object, at any depth
